@@ -11,7 +11,7 @@ CONN_NOTE = "Trusted: TLC; the harness (virtual-time loop, simulated link over t
 # id -> (level, technique, text, note, design_ref, engine)
 CLAIMED = {
  'C13': ('model_checking',
-         'TLC exhaustive check of StreamIds.tla + replay of every transition of its state graph on the real StreamControl',
+         'TLC exhaustive check of StreamIds.tla + replay of every transition of its state graph on the real StreamControl; Dispatch.tla rows for request frames that reuse an active id replayed on both real endpoints',
          'TLC explores every history of allocate/register/finish/incoming on id spaces 0..7 and 0..15 for both parities and checks the '
          'declarative clauses of C13 on the allocator algorithm; the complete state graph (24.7k states, 293k transitions) is then replayed '
          'transition by transition on the real StreamControl, plus walks at the real 31-bit scale through a window refinement. '
@@ -28,7 +28,7 @@ CLAIMED = {
    "Mux.tla models send_frame / send_priority_frame / _get_next_frame_to_send / _cycle_send_queue and the peer's FrameFragmentCache, one action per critical section; TLC checks per-stream wire order, exact reassembly, in-order single delivery, SETUP first and eventual drain over every interleaving, refutes the pre-fix 'naive' rotation as a control, and the complete state graph (41,833 transitions) is replayed step by step on a real RSocketClient queue and cache comparing written fragment, queue order and reassembled frames. Per-stream FIFO and fragment contiguity are clauses of the send-queue model in RSocket.tla (OnEnq/OnTx): every frame on the wire must be the next fragment of the oldest queued frame of its stream, and what the peer's transport decodes must equal what was sent. Families hold the sender's gate closed while several fragmented and unfragmented frames are queued on the same and on different streams.",
    CONN_NOTE, 'DESIGN 6/C05', 'conn'),
  'C06': ('model_checking',
-   'TLC trace validation of recorded executions of the real endpoints against RSocket.tla (+ design-level TLC model checking of the same monitors)',
+   'TLC model checking of Source.tla (the library stream sources as publishers under request(n)/cancel() calls that pile up) with every transition replayed on the real publisher classes; TLC trace validation of recorded executions of the real endpoints against RSocket.tla (+ design-level TLC model checking of the same monitors)',
    "Credit accounting is a monitor of RSocket.tla evaluated from the emitting endpoint's own receptions: a library stream source never has more elements queued than credit received, the n on the wire equals what the application granted, and at quiescence everything available within credit was delivered.",
    CONN_NOTE, 'DESIGN 6/C06', 'conn'),
  'C07': ('model_checking',
@@ -40,7 +40,7 @@ CLAIMED = {
    "A wire monitor per endpoint (RSocket.tla OnEnq) judges every queued frame against the endpoint's own earlier emissions and receptions: SETUP first and once, parity, first frame is a request, frame types allowed for role and interaction model, positive initial n, no payload after own complete, nothing after ERROR / requester CANCEL / both directions complete, connection frames on stream 0 only.",
    CONN_NOTE, 'DESIGN 6/C08', 'conn'),
  'C09': ('model_checking',
-   'TLC trace validation of recorded executions of the real endpoints against RSocket.tla, incl. schedules that cover every transition pair of the design-model graphs (RSocketMC.tla) and every transition of the two-interaction model (RSocketMC2.tla); design-level TLC model checking of the same monitors',
+   'TLC trace validation of recorded executions of the real endpoints against RSocket.tla, incl. schedules that cover every transition pair of the design-model graphs (RSocketMC.tla) and every transition of the two-interaction model (RSocketMC2.tla); design-level TLC model checking of the same monitors; Source.tla (cancel() on the library sources at every point) and Lease.tla (cancel of a request held back for a lease) replayed on the real classes',
    "Cancellation monitors: exactly one CANCEL per pending cancellation, nothing delivered to the canceller afterwards, the peer's publisher / handler future / library source is cancelled by quiescence and produces nothing afterwards; cancels are issued at random moments including in the same read as the request.",
    CONN_NOTE, 'DESIGN 6/C09', 'conn'),
  'C10': ('model_checking',
@@ -64,11 +64,11 @@ CLAIMED = {
          'Trusted: TLC, the independent encoder/decoder used to build and describe frames. Frame contents come from a fixed table per body length.',
          'DESIGN 6/C04', 'parser'),
  'C11': ('model_checking',
-   'TLC trace validation of recorded executions of the real endpoints against RSocket.tla (+ design-level TLC model checking of the same monitors)',
+   'TLC model checking of Lifecycle.tla (close / reconnect / loss races; nondeterministic graph replay on a real client-server pair, recorded paths trace-validated); TLC trace validation of recorded executions of the real endpoints against RSocket.tla (+ design-level TLC model checking of the same monitors)',
    'Cut family: 0-4 pending interactions in both roles, then the TCP link is cut at an arbitrary byte offset (mid-frame and mid-fragment included), by orderly EOF or by a connection reset, or an endpoint calls close(); several keep-alive periods of virtual time pass. Clauses: every pending requester failed, every responder-side producer cancelled, on_close exactly once per connection, no frame and no keep-alive after the close notification.',
    CONN_NOTE, 'DESIGN 6/C11', 'conn'),
  'C12': ('model_checking',
-   'TLC trace validation of recorded executions of the real endpoints against RSocket.tla (+ design-level TLC model checking of the same monitors)',
+   'TLC-checked decision table Dispatch.tla (stream state x frame kind x stream id: containment, duplicate rejection) with every row replayed on both real endpoints; TLC trace validation of recorded executions of the real endpoints (hostile families) against RSocket.tla (+ design-level TLC model checking of the same monitors)',
    'Hostile family: twenty classes of junk frames built by an independent encoder are injected towards either endpoint, and interactions run whose application code raises at every entry point (handler methods, publisher subscribe/request/cancel, subscriber callbacks, failing futures, raising generators); a witness stream must still complete with all its payloads, a probe request must be served, both tasks stay alive, the connection is not closed, every run terminates under a watchdog.',
    CONN_NOTE, 'DESIGN 6/C12', 'conn'),
  'C14': ('model_checking',
@@ -84,7 +84,7 @@ CLAIMED = {
    'SETUP monitor: the decoded SETUP of a real client (independent decoder) must state the configured periods in ms, MIME types, lease flag, payload and version 1.0 and be the first frame on the wire whatever was requested while connect() - with suspending and non-suspending transports and providers - was in progress; a scripted client sends SETUP variants / RESUME to a real server, which must call on_setup exactly once for an acceptable SETUP and answer the others with the matching error code on stream 0.',
    CONN_NOTE, 'DESIGN 6/C16', 'conn'),
  'C17': ('model_checking',
-   'TLC trace validation of recorded executions of the real endpoints against RSocket.tla (+ design-level TLC model checking of the same monitors)',
+   'TLC model checking of Lifecycle.tla (close / reconnect / loss races; nondeterministic graph replay on a real client-server pair, recorded paths trace-validated); TLC trace validation of recorded executions of the real endpoints against RSocket.tla (+ design-level TLC model checking of the same monitors)',
    'Reconnect monitor: after reconnect() - previous connection ended by server EOF, connection reset, server close, keep-alive timeout or while healthy, with 0-3 interactions pending, 1-3 consecutive reconnects - the old transport was closed, everything pending on it failed, a new transport was taken, SETUP is its first frame, ids restart, keep-alives restart, a probe request is served.',
    CONN_NOTE, 'DESIGN 6/C17', 'conn'),
  'C02': ('exploration',
@@ -109,7 +109,7 @@ CLAIMED = {
          'asynchronous verifier is still deciding), with five handler signature variants for the parameter binding, and a sample through real endpoints with a concurrent witness request.',
          'Exhaustive over the enumerated product; routes are two registered names, one unregistered, none. Payload deserializer hooks are the defaults.', 'DESIGN 6/C19', 'routing'),
  'C20': ('model_checking',
-   'TLC trace validation of recorded executions through the Rx / ReactiveX adapters against the same RSocket.tla monitors as the core API',
+   'TLC model checking of Source.tla (observable-backed publishers) and Demand.tla (rate-limited subscribers of the Rx / ReactiveX / awaitable front ends) with every transition replayed on the real classes; TLC trace validation of recorded executions through the Rx / ReactiveX adapters against the same RSocket.tla monitors as the core API',
    'The scenarios of C01/C06/C07/C09 are driven through ReactiveXClient / RxRSocket and both handler adapters; observer callbacks are recorded in the same event vocabulary, so the same monitors decide '
    'element-for-element delivery in order, completion and errors preserved (C20.terminal_kind_preserved), every request-n on the wire equal to the request limit, wire emission within credit, '
    'back-pressure factories asked exactly the credited amounts, disposal cancelling the stream, and fire-and-forget / metadata-push / setup reaching the delegate. Element counts 0,1,many; limits 1..max; error positions; disposal moments; both versions.',
@@ -156,6 +156,9 @@ def main():
              'kind_free_text': 'wire layouts transcribed into TLA+; value domains enumerated by TLC; every value replayed on the real codec'},
             {'name': 'routing', 'path': 'spec/Routing.tla + vf/props/c19.py', 'serves_properties': ['C19'],
              'kind_free_text': 'decision function in TLA+, invariants by TLC, full decision table replayed on the real router and handler'},
+            {'name': 'components', 'path': 'spec/Mux.tla Lease.tla KeepAlive.tla Lifecycle.tla Source.tla Demand.tla Dispatch.tla + vf/props/{mux,leasemodel,kamodel,lifecycle,sourcemodel,demandmodel,dispatch,graphreplay}.py',
+             'serves_properties': ['C05', 'C06', 'C09', 'C11', 'C12', 'C13', 'C14', 'C15', 'C17', 'C20'],
+             'kind_free_text': 'implementation-shaped TLA+ component specs, TLC exhaustive; every transition / row replayed on the real objects (oracle on the real observations, state mismatch = drift)'},
             {'name': 'conn', 'path': 'spec/RSocket.tla + spec/RSocketTrace.tla + vf/harness + vf/props/conn.py',
              'serves_properties': [p for p in PROPS if p in CLAIMED and CLAIMED[p][5] == 'conn'],
              'kind_free_text': 'connection-level TLA+ monitors; real endpoints driven under a virtual-time loop over a simulated link; recorded traces validated by TLC in batches'},
